@@ -17,6 +17,8 @@ import itertools
 import time
 import warnings
 
+from fractions import Fraction
+
 import numpy as np
 
 from symx import core, harness, loader, runner
@@ -236,8 +238,59 @@ def _kwstr(kw):
     return ",".join(f"{k}={v if not isinstance(v, np.ndarray) else v.tolist()}" for k, v in sorted(kw.items()) if k not in ("random_state",))
 
 
+def job_lr_sequence():
+    """several estimators fitted one after the other in ONE process, each with its own learning rate and solver: every optimiser must be
+    built with the learning rate of ITS estimator (no value captured from an earlier fit)"""
+    loader.install()
+    res = _new()
+    seq = [("LinearModel", (2, 1, 2), "adam", Fraction(1, 8)), ("Douglas", (2, 1, 1, 2), "sgd", Fraction(3, 4)), ("LinearModel", (2, 1, 2), "sgd", Fraction(1, 32)),
+           ("MLPModel", (2, 1, 1, 2), "adam", Fraction(5, 16))]
+
+    def body(_):
+        got = []
+        for fam, sh, solver, lr in seq:
+            env = cm.FitEnv(fam, sh, gemini="mi", batch_size=None, solver=solver, max_iter=1, stop_after_training=False, gemini_stub=True, final_infer="concrete",
+                            hyper={"learning_rate": float(lr)})
+            env.run_fit()
+            opt = env.mdl.optimiser_
+            got.append((fam, solver, float(lr), type(opt).__name__, getattr(opt, "learning_rate_init", None)))
+        return got
+
+    ex = Explorer(max_paths=4)
+    for out, pc, trace in ex.run(body, lambda: None):
+        res["paths"] += 1
+        if isinstance(out, PathError):
+            res["obligations"].append({"name": "lr-sequence/path-error", "verdict": "inconclusive", "how": repr(out)[:300]})
+            break
+        for i, (fam, solver, lr, cls_name, lr_got) in enumerate(out):
+            ok = lr_got is not None and abs(float(lr_got) - lr) < 1e-15 and cls_name == ("RecSGD" if solver == "sgd" else "RecAdam")
+            res["obligations"].append({"name": f"lr-sequence/fit {i + 1} ({fam}, {solver}, learning_rate={lr}): optimiser built with this estimator's rate and class", "verdict": "unsat" if ok else "sat",
+                                       "how": "path-evaluation", "got": [cls_name, None if lr_got is None else float(lr_got)]})
+            if not ok and not res["violations"]:
+                rep_ = {"kind": "lr-sequence"}
+                if replay(rep_):
+                    res["violations"].append({"signature": f"{PROP}:optimiser:learning-rate", "what": f"fit {i + 1} of a sequence ({fam}, learning_rate={lr}) builds its optimiser with the rate {lr_got} of an earlier fit", "replay": rep_})
+                else:
+                    res["obligations"][-1]["verdict"] = "inconclusive"
+        break
+    res["samples"].append({"sequence": [(f, s_, float(l)) for f, _, s_, l in seq]})
+    return res
+
+
 def replay(rep, verbose=False):
     rng = np.random.RandomState(1)
+    if rep["kind"] == "lr-sequence":
+        lin = loader.real("linear._linear_geminis")
+        dg = loader.real("tree.douglas")
+        X = rng.normal(size=(12, 2))
+        bad = False
+        for cls, solver, lr in [(lin.LinearMMD, "adam", 0.125), (dg.Douglas, "sgd", 0.75), (lin.LinearModel, "sgd", 0.03125), (lin.RIM, "adam", 0.3125)]:
+            m = cls(n_clusters=2, max_iter=2, solver=solver, learning_rate=lr, random_state=0).fit(X)
+            got = getattr(m.optimiser_, "learning_rate_init", None)
+            if verbose:
+                print(cls.__name__, solver, "learning_rate", lr, "-> optimiser_.learning_rate_init", got, type(m.optimiser_).__name__)
+            bad = bad or got is None or abs(got - lr) > 1e-15 or type(m.optimiser_).__name__ != ("SGDOptimizer" if solver == "sgd" else "AdamOptimizer")
+        return bad
     if rep["kind"] == "witness":
         kw = dict(rep["kw"])
         if "feature_mask" in kw:
@@ -289,6 +342,7 @@ def jobs(tier):
                 for gem in (["mi"] if fam in ("RIM", "KernelRIM") else ["mi", "mmd_ova"] if q else ["mi", "mmd_ova", "wasserstein_ova"]):
                     out.append({"name": f"grid/{fam}/{gem}/bs{bs}/{solver}", "target": "checks.c04:job_grid",
                                 "kwargs": dict(family=fam, shape=sh, gemini=gem, batch_size=bs, solver=solver, max_iter=1), "timeout": 280 if q else 1800})
+    out.append({"name": "lr-sequence", "target": "checks.c04:job_lr_sequence", "kwargs": {}, "timeout": 280})
     out.append({"name": "grid/LinearModel/mi/bs2/adam/it2", "target": "checks.c04:job_grid",
                 "kwargs": dict(family="LinearModel", shape=(3, 1, 2), gemini="mi", batch_size=2, solver="adam", max_iter=2), "timeout": 280 if q else 1800})
     out.append({"name": "grid/LinearModel/real-gemini/mi", "target": "checks.c04:job_grid",
